@@ -9,6 +9,9 @@ class C10(common.SpecCheck):
     title = "Statement order respects every data and control dependence"
     unit_fn = "units.c10:c10_unit"
     QUICK = {"nseeds": 8, "specs": 320, "round": 320, "budget": 0}
+    # a thorough unit is 49 translations: rounds are kept small so that the time budget is checked often enough for
+    # the command's own timeout (a round of the default 600 specs x 32 seeds would run for more than an hour)
+    THOROUGH = {"nseeds": 32, "specs": 0, "round": 40, "budget": 1200}
     TIEBREAKS = {"quick": 8, "thorough": 48}
     rule = ("specs of all classes (S, O, A, A+ (two projected tensors, occupancy split of an index-math rank), K, T in plain mode, M and Mp (partitioned, "
             "with mergers) in metrics mode) driven through the public IR "
